@@ -99,8 +99,19 @@ func c18RawMatches(raw []byte, kind int) bool {
 
 // ---- key / prefix alphabet ------------------------------------------------
 
-var c18Keys = []string{"a", "ab", "ab\x00", "abc", "b"} // ascending byte order
-var c18Prefixes = []string{"", "a", "ab", "b", "c"}
+// Two key universes (c18Run installs the one of its size class before exploring):
+// the prefix-chain universe of the main harnesses, and the byte-boundary universe
+// of TestVerifC18Bytes: the empty key, a key equal to a prefix, the smallest
+// (0x00) and largest (0xff) byte right after a prefix, prefix+"\xff\xff", the
+// first key after the prefix range ("q" = "p"+1) and a key that starts with 0xff;
+// prefixes ending in 0x00 / 0xff and the all-0xff prefix (no upper bound exists).
+var c18KeysMain = []string{"a", "ab", "ab\x00", "abc", "b"} // ascending byte order
+var c18PrefixesMain = []string{"", "a", "ab", "b", "c"}
+var c18KeysBytes = []string{"", "p", "p\x00", "p\xff", "p\xff\xff", "q", "\xff"} // ascending byte order
+var c18PrefixesBytes = []string{"", "p", "p\x00", "p\xff", "p\xff\xff", "\xff"}
+
+var c18Keys = c18KeysMain
+var c18Prefixes = c18PrefixesMain
 
 // keys the implementations keep for themselves; the statement is about the
 // caller's keys, so they are filtered out of every iteration (weakest reading).
@@ -136,6 +147,7 @@ var c18CbNames = []string{"collect", "stop@1", "stop@2", "err@1", "err@2", "stop
 //	2 small (file-backed store, thorough): 3 keys, 2 values, 2 prefixes x 3 callbacks
 //	3 tiny  (file-backed store, quick): 2 keys, 2 values, 3 iterations, no Get
 //	  (every step is followed by a full read-back anyway)
+//	4 byte-boundary universe (in-memory stores): 7 keys x 2 values, 6 prefixes x 4 callbacks
 func c18Alphabet(withReopen bool, size int) []c18Op {
 	keys := []int{0, 1, 2, 3, 4}
 	vals := []int{0, 1, 2, 3, 4}
@@ -146,14 +158,19 @@ func c18Alphabet(withReopen bool, size int) []c18Op {
 	case 1:
 		vals = []int{1, 3, 4}
 	case 2:
-		keys = []int{0, 1, 4}  // a, ab, b
-		vals = []int{0, 4}     // int7, binEmpty
-		prefixes = []int{0, 1} // "", a
+		keys = []int{0, 1, 4}   // a, ab, b
+		vals = []int{0, 4}      // int7, binEmpty
+		prefixes = []int{0, 1}  // "", a
 		cbs = []int{0, 1, 3, 5} // collect, stop@1, err@1, stop+err@1
 	case 3:
 		keys = []int{0, 1} // a, ab
 		vals = []int{0, 4}
 		gets = false
+	case 4:
+		keys = []int{0, 1, 2, 3, 4, 5, 6}
+		vals = []int{1, 4} // JSON string, empty binary
+		prefixes = []int{0, 1, 2, 3, 4, 5}
+		cbs = []int{0, 1, 4, 5} // collect, stop@1, err@2, stop+err@1
 	}
 	// op 0 ends the sequence
 	ops := []c18Op{{kind: "stop"}}
@@ -251,6 +268,12 @@ func TestVerifC18Mem(t *testing.T) {
 		mc.EnvInt("VERIF_C18_SIZE", mc.Pick(1, 0)), mc.EnvInt("VERIF_C18_DEPTH", mc.Pick(4, 5)))
 }
 
+// TestVerifC18Bytes explores the two in-memory implementations over the
+// byte-boundary key universe (range-end arithmetic of prefix iteration).
+func TestVerifC18Bytes(t *testing.T) {
+	c18Run(t, "C18-statestore-byte-boundaries", []int{c18ImplLdbMem, c18ImplMock}, 4, mc.EnvInt("VERIF_C18_BYTES_DEPTH", mc.Pick(3, 5)))
+}
+
 // TestVerifC18Disk explores the file-backed store including close + reopen.
 // Opening a file-backed goleveldb costs 12-25 ms (unconditional fsync of
 // CURRENT and the manifest), hence the smaller alphabets.
@@ -269,6 +292,10 @@ func TestVerifC18DiskDeep(t *testing.T) {
 }
 
 func c18Run(t *testing.T, harness string, impls []int, size int, depth int) {
+	c18Keys, c18Prefixes = c18KeysMain, c18PrefixesMain
+	if size == 4 {
+		c18Keys, c18Prefixes = c18KeysBytes, c18PrefixesBytes
+	}
 	mockRepeat := mc.EnvInt("VERIF_C18_MOCK_REPEAT", 300)
 	workRoot := os.Getenv("VERIF_WORK")
 	if workRoot == "" {
@@ -302,7 +329,7 @@ func c18Run(t *testing.T, harness string, impls []int, size int, depth int) {
 	mc.Run(t, mc.Config{ID: "C18", Name: harness, MaxDev: -1, Params: map[string]interface{}{
 		"implementations": implNames, "depth": depth, "ops_per_step": len(c18Alphabet(withReopen, size)),
 		"mock_iterate_repetitions": mockRepeat, "alphabet_size_class": size,
-		"alphabet":                 describe(c18Alphabet(withReopen, size))}},
+		"alphabet": describe(c18Alphabet(withReopen, size))}},
 		func(x *mc.X) {
 			impl := impls[x.Choose(len(impls))]
 			name := c18ImplNames[impl]
